@@ -27,6 +27,8 @@ def alpha_str(e):
         return "0"
     if e < -1:   # deliberately out of range: SVG clamps opacities to [0, 1]
         return {-2: "1.5", -3: "-0.25", -4: "2"}[e]
+    if e >= 10:  # non-dyadic values (structural foci only; the rendering semantics never sees them)
+        return {10: "0.7", 11: "0.1", 12: "0.3"}[e]
     return num(2.0 ** -e)
 
 
